@@ -144,9 +144,15 @@ Definition resolve_rel (parent : name) (inc : val) : res name :=
 Record variants := {
   tag_after : bool;       (* e62fc38: the piece after an include block has version file_version + "+" *)
   rerender : bool;        (* before fe12c42: a file already processed in this run was rendered again *)
+  marker_compared : bool; (* before dfdd8ff (D25): file names were compared with the marker "top file" that starts parent_files *)
   empty_raises : bool     (* before ec4c1d7: unpacking the zip of an empty piece list raised ValueError *)
 }.
-Definition current_variants : variants := {| tag_after := true; rerender := false; empty_raises := false |}.
+(* the documented semantics never compares a file name with the marker: the specification that judges observations
+   is the one of the variant with this flag off (the other flags do not influence the specified data) *)
+Definition no_marker (V : variants) : variants :=
+  {| tag_after := tag_after V; rerender := rerender V; marker_compared := false; empty_raises := empty_raises V |}.
+Definition current_variants : variants :=
+  {| tag_after := true; rerender := false; marker_compared := false; empty_raises := false |}.
 
 Record config := { allow_empty_top : bool; cfg_ml : bool; cfg_ms : bool; engine_on : bool; suffix : str }.
 
@@ -220,6 +226,10 @@ Section Compiler.
           | None => parse_file text
           end)
     end.
+
+  (* parent_files starts with the marker "top file"; the cycle test looks at parent_files[1:] (since dfdd8ff), so for the
+     comparison the chain of including files starts empty - unless the old behaviour is selected *)
+  Definition initial_parents : list name := if marker_compared V then [[s_topfile]] else [].
 
   Definition opt_piece (d : option dict) (v : str) : list piece :=
     match d with Some (x :: r) => [(x :: r, v)] | _ => [] end.
@@ -325,7 +335,7 @@ Section Compiler.
     bind (process_top oc) (fun te =>
     bind (match fst te with
           | Some (x :: r) =>
-              bind (pfiles (fuel_for t) (i_files oc) [[s_topfile]] (map name_of_top_elem (x :: r)) []) (fun pn =>
+              bind (pfiles (fuel_for t) (i_files oc) initial_parents (map name_of_top_elem (x :: r)) []) (fun pn =>
               match fst pn with
               | [] => if empty_raises V then Err ValueError else Ok pn
               | _ => Ok pn
@@ -397,7 +407,7 @@ Section Compiler.
   Definition spec_pieces : res (list piece) :=
     bind spec_top (fun fl =>
       match fl with
-      | Some (x :: r) => expand_spec (fuel_for t) [[s_topfile]] (map name_of_top_elem (x :: r))
+      | Some (x :: r) => expand_spec (fuel_for t) initial_parents (map name_of_top_elem (x :: r))
       | _ => Ok []
       end).
 
